@@ -155,14 +155,21 @@ def e2e_case(c):
 
 
 def oracle_e2e(ck, rng):
-    n = 9 if ck.tier == "quick" else 120
+    n = 15 if ck.tier == "quick" else 150
     for i in range(n):
-        rots = [((20, 20), (0, 0), (0, 0)), ((0, 0), (15, 15), (0, 0)), ((0, 0), (0, 0), (30, 30)), ((10, 10), (10, 10), (0, 0))][i % 4]
-        K = 9 if i % 4 == 3 else 3
+        rots = [((20, 20), (0, 0), (0, 0)), ((0, 0), (90, 90), (0, 0)), ((0, 0), (0, 0), (30, 30)), ((10, 10), (10, 10), (0, 0)),
+                ((90, 90), (0, 0), (0, 0))][i % 5]
+        K = 9 if i % 5 == 3 else 3
+        # fractional search range (in pixels) and displacements up to its edge, in the input molecule frame
+        mpx = float(rng.choice([2.0, 2.75, 1.4]))
+        sh = np.round(rng.uniform(-mpx, mpx, size=3) * 20) / 20
+        if i % 2:
+            ax = int(rng.integers(0, 3))
+            sh[ax] = float(rng.choice([-1, 1])) * np.floor(mpx * 20) / 20     # on the edge of the permitted range
         c = dict(model=["zncc", "ncc", "pcc"][i % 3], loader=["single", "batch", "group", "multi"][(i // 3) % 4],
                  scale=float(rng.choice([1.0, 0.5, 1.6])), rv_true=(rng.normal(size=3) * 0.6).tolist(),
                  p_true=(22 + rng.uniform(-1, 1, size=3)).tolist(), rotations=[list(x) for x in rots], k=int(rng.integers(0, K)),
-                 shift_px=(rng.integers(-30, 31, size=3) / 20.0).tolist(), max_shift_px=2.0)
+                 shift_px=sh.tolist(), max_shift_px=mpx)
         try:
             ok, detail = e2e_case(c)
         except Exception as e:  # noqa
